@@ -14,7 +14,8 @@ CONSTANT Depth
 VARIABLE hist
 
 MinOf(S) == CHOOSE x \in S : \A y \in S : x <= y
-R(a, p, m, k, q, ok, r) == [a |-> a, p |-> p, m |-> m, k |-> k, q |-> q, ok |-> ok, r |-> r]
+R(a, p, m, k, q, ok, r) == [a |-> a, p |-> p, m |-> m, k |-> k, q |-> q, ok |-> ok, r |-> r, att |-> 0]
+RL(msg, ok) == [a |-> "late", p |-> msg.p, m |-> msg.to, k |-> msg.k, q |-> {}, ok |-> ok, r |-> msg.r, att |-> msg.a]
 H(rec) == hist' = Append(hist, rec)
 Verdict(j, k) == \A x \in Holders(j) : JurorOk(x, k)
 
@@ -29,7 +30,7 @@ Sched ==
        \/ DeliverLost(p, j) /\ H(R("lost", p, j, resp[p].key, {}, Verdict(j, resp[p].key), resp[p].round))
        \/ Fail(p, j) /\ H(R("fail", p, j, resp[p].key, {}, TRUE, resp[p].round))
        \/ Timeout(p, j) /\ H(R("timeout", p, j, resp[p].key, {}, TRUE, resp[p].round))
-  \/ \E msg \in net : DeliverLate(msg) /\ H(R("late", msg.p, msg.to, msg.k, {}, Verdict(msg.to, msg.k), msg.r))
+  \/ \E msg \in net : DeliverLate(msg) /\ H(RL(msg, Verdict(msg.to, msg.k)))
   \/ \E m \in Proc, k \in 1..MaxKey : Learn(m, k) /\ H(R("learn", 0, m, k, {}, TRUE, 0))
 
 GNext ==
